@@ -4,6 +4,7 @@ import (
 	"encoding/json"
 	"errors"
 	"fmt"
+	"runtime/debug"
 	"strings"
 	"sync"
 
@@ -37,9 +38,9 @@ type c01Case struct {
 }
 
 // c01CoreTemplates is the curated sub-alphabet of the k=3 quick slice.
-var c01CoreTemplates = []string{"move-var", "destroy", "arr-append", "arr-remove", "dict-force", "opt-second", "swap-elem",
-	"cast-up", "cast-down", "save", "load", "ref-take", "aref-take", "refs-append-id", "ref-read", "refs0-read", "refs1-call",
-	"aref-bump", "fn-capture-ref", "fn-call", "attach", "att-ref", "take-opt", "take-arr", "eat-r", "eat-dict"}
+var c01CoreTemplates = []string{"destroy", "arr-append", "arr-remove", "dict-force", "opt-second", "swap-elem",
+	"save", "load", "ref-take", "refs-append-id", "ref-read", "refs0-read", "refs1-call", "attach",
+	"take-opt", "take-arr", "eat-r", "eat-dict"}
 
 type c01Slice struct {
 	name string
@@ -204,6 +205,8 @@ access(all) fun main(arg: Int): Int {
 }
 
 func runC01(env *mc.Env) {
+	// each run allocates a few short-lived megabytes (parse + check of the imported contract): collect less often
+	defer debug.SetGCPercent(debug.SetGCPercent(400))
 	pres := c01PreStates()
 	for _, pr := range c01Probes {
 		for _, vm := range []bool{false, true} {
@@ -337,7 +340,7 @@ func replayC01(env *mc.Env, raw json.RawMessage) (bool, string) {
 func init() {
 	mc.Register(&mc.Check{
 		ID: "C01",
-		Rule: "every program of the feature-interaction fragment (fixed contract prelude + 7-variable header + body of <= 2 statements from 115 templates, plus bodies of exactly 3 statements from a 26-template core alphabet; thorough: <= 3 statements from all templates) that the checker accepts, " +
+		Rule: "every program of the feature-interaction fragment (fixed contract prelude + 7-variable header + body of <= 2 statements from 115 templates, plus bodies of exactly 3 statements from a 18-template core alphabet; thorough: <= 3 statements from all templates) that the checker accepts, " +
 			"x {script, transaction} x {interpreter, VM} x pre-states {empty account, and R / [R] / S stored at each storage path the program mentions} x arguments {1, 0, -1, 1000} (for programs that reach a pre/post-condition); " +
 			"oracle: result is success or a user/external error; never an internal error, Go runtime panic, escaped panic, nor ValueTransferTypeError / InvalidatedResourceError / MemberAccessTypeError; non-trivial = distinct accepted program",
 		Assumptions: []string{
